@@ -595,6 +595,45 @@ func c16Normalize(r *Run, fn *ssa.Function) {
 	if header != nil {
 		stop[header] = true
 	}
+	// a '..' cancels only an ordinary element that was kept before it: the cursor is decremented only on an edge
+	// implying cursor > lo, where lo — the count returned on success — is the number of leading '..' already kept
+	// (popping one of those instead makes "../.." lose an element and the count disagree with the result)
+	{
+		fa := r.P.FA(fn)
+		var loVal ssa.Value
+		for _, ret := range returnsOf(fn) {
+			if len(ret.Results) == 2 {
+				if _, isC := ret.Results[1].(*ssa.Const); !isC {
+					loVal = ret.Results[1]
+				}
+			}
+		}
+		var pop *ssa.BinOp
+		eachInstr(fn, func(in ssa.Instruction) {
+			if x, ok := in.(*ssa.BinOp); ok && x.Op == token.SUB && x.Block() == popBlk {
+				if c, ok := constInt(x.Y); ok && c == 1 {
+					pop = x
+				}
+			}
+		})
+		if loVal == nil || pop == nil {
+			r.Undecided("classes", "NormalizePath: pop guard", fn.Pos(), "cannot find the returned count or the cursor decrement")
+		} else {
+			// the count that is live in the loop: the header phi the returned value comes from
+			lo := loVal
+			if ph, ok := loVal.(*ssa.Phi); ok && ph.Block() != pop.X.(*ssa.Phi).Block() {
+				for _, e := range ph.Edges {
+					if p2, ok := e.(*ssa.Phi); ok {
+						lo = p2
+					}
+				}
+			}
+			goal := fa.Lin(lo).Add(linConst(1)).Sub(fa.Lin(pop.X)) // lo + 1 - cursor <= 0
+			facts := fa.FactsAt(pop, goal)
+			r.Check(Entails(facts, goal), "classes", "NormalizePath: '..' pops only an ordinary element (cursor > number of kept leading '..')", pop.Pos(),
+				"a '..' can pop a kept leading '..' instead of an ordinary element: \"../..\" loses an element and the returned count no longer matches the result", factStrings(facts)...)
+		}
+	}
 	for _, a := range nameAlphabet {
 		reach := ccpReach(body, map[ssa.Value]string{elem: a.s}, stop)
 		out := map[string]bool{}
